@@ -100,6 +100,37 @@ def run(ctx, rep):
         rep.ob('R05.b', EC + '::' + v, 'same-mutator', mb == mh and bool(mb), tr['binary'][2].where(),
                'both transports call %s' % sorted(short(x) for x in mb) if mb == mh else 'binary calls %s, HTTP calls %s' % (sorted(short(x) for x in mb), sorted(short(x) for x in mh)))
 
+    # ------------------------------------------------------------ R05.c decisions are recorded, not recomputed
+    rep.rule('R05.c', 'server decisions are journalled, not recomputed at replay: the id / resolved expiry / resolved size written into the journalled command derive from the entity the mutator returned, in both transports', floor=14, analysis='A9')
+    import forms as _forms
+    import re as _re
+    RESOLVED = [
+        ('iggy::streams::create_stream::CreateStream', 'stream_id', 'create_stream', 'stream_id'),
+        ('iggy::topics::create_topic::CreateTopic', 'topic_id', 'create_topic', 'topic_id'),
+        ('iggy::topics::create_topic::CreateTopic', 'message_expiry', 'create_topic', 'message_expiry'),
+        ('iggy::topics::create_topic::CreateTopic', 'max_topic_size', 'create_topic', 'max_topic_size'),
+        ('iggy::consumer_groups::create_consumer_group::CreateConsumerGroup', 'group_id', 'create_consumer_group', 'group_id'),
+        ('iggy::topics::update_topic::UpdateTopic', 'message_expiry', 'update_topic', 'message_expiry'),
+        ('iggy::topics::update_topic::UpdateTopic', 'max_topic_size', 'update_topic', 'max_topic_size'),
+    ]
+    for adt, field, mut, src in RESOLVED:
+        sites = {fn: (b_, bb_, ln, form) for fn, b_, bb_, ln, form in _forms.field_assignments(ctx, adt, field) if fn.startswith('server::binary::handlers::') or fn.startswith('server::http::')}
+        variant = adt.split('::')[-1]
+        for transport in ('binary', 'http'):
+            ent = by_variant.get(variant, {}).get(transport)
+            if not ent:
+                continue
+            fn = ent[0]
+            st = sites.get(fn)
+            if st is None:
+                rep.ob('R05.c', fn, '%s.%s recorded' % (variant, field), False, None,
+                       'the handler journals the client\'s `%s` as received: replay has to re-derive it and can disagree with what the server decided (ids after delete/re-create, server defaults)' % field)
+                continue
+            b_, bb_, ln, form = st
+            ok = bool(_re.match(r'^(RwLock::read\()?System::%s\(.*\)\)?\.%s$' % (mut, src), form)) and b_.dominates(bb_, ent[2].bb)
+            rep.ob('R05.c', fn, '%s.%s recorded' % (variant, field), ok, '%s:%s' % (b_.file, ln),
+                   'command.%s := %s(..).%s before journalling' % (field, mut, src) if ok else 'journalled `%s` is `%s`, not the value of the entity returned by System::%s' % (field, form[:80], mut))
+
     # ------------------------------------------------------------ R05.d journal alphabet
     rep.rule('R05.d', 'journal alphabet round-trips: from_bytes(code) builds the variant whose payload type reports that code; replay match has no wildcard', floor=19, analysis='A11')
     fb = ctx.fn_body('<server::state::command::EntryCommand as iggy::bytes_serializable::BytesSerializable>::from_bytes')
